@@ -27,7 +27,7 @@ from ..engine import rec as _rec, emit as _emit, checked  # noqa: E402
 # ------------------------------------------------------------------ search loop
 
 
-@rule("SEARCH-COVER", ["C01", "C02", "C08", "C12", "C13", "C20"], floor=8)
+@rule("SEARCH-COVER", ["C01", "C02", "C08", "C12", "C13", "C20", "C09", "C10", "C11"], floor=8)
 def search_cover(ctx):
     """ReMatcher::matches: each of the three scan loops tries match_at at every position of an ascending
     Range that starts at the given start and ends at len+1 (no shortcut), len+1-prefix.len() (prefix) or len
@@ -715,7 +715,14 @@ def order_reluctant(ctx):
     mb = ctx.body(M)
     if mb is not None:
         rs = {_sh(strip_ver(render(p.ret))) for p in ctx.walk(mb).paths}
-        _rec(d, "matches_iter", rs == {"ReluctantFixedIterator::new(a1.operation, a2, a3, a1.min, a1.max)"}, "ReluctantFixed::matches_iter must pass (child, matcher, position, min, max); found %s" % sorted(rs), mb.loc())
+        if nw is None and len(rs) == 1 and next(iter(rs)).startswith("ReluctantFixedIterator::ReluctantFixedIterator{"):
+            # the constructor written out at its only call site: the same initial state, stated on the literal
+            r0 = next(iter(rs))
+            good = all(x in r0 for x in ("count: 0", "started: false", "pos: a3", "position: a3", "min: a1.min", "max: a1.max", "op: a1.operation", "matcher: a2"))
+            _rec(d, "new", good, "ReluctantFixedIterator initial state wrong: %s" % r0[:200], mb.loc())
+            _rec(d, "matches_iter", good, "ReluctantFixed::matches_iter must start the iterator with (child, matcher, position, min, max); found %s" % r0[:200], mb.loc())
+        else:
+            _rec(d, "matches_iter", rs == {"ReluctantFixedIterator::new(a1.operation, a2, a3, a1.min, a1.max)"}, "ReluctantFixed::matches_iter must pass (child, matcher, position, min, max); found %s" % sorted(rs), mb.loc())
     return _emit(d)
 
 
